@@ -22,7 +22,7 @@ def shards(tier):
 
 
 def required_classes(tier):
-    return ["xmd:len-from-literal", "xmd:valid", "xmd:dst>255", "xmd:ell>255", "xmd:len=0", "h2f:FQ", "h2f:FQ2"] + ["xmd:hash=" + h for h in HASHES]
+    return ["soak:distinct-messages", "xmd:len-from-literal", "xmd:valid", "xmd:dst>255", "xmd:ell>255", "xmd:len=0", "h2f:FQ", "h2f:FQ2"] + ["xmd:hash=" + h for h in HASHES]
 
 
 MSG_LENS_Q = [0, 1, 55, 56, 63, 64, 65, 119, 128, 1024]
@@ -89,6 +89,21 @@ def run(rec):
             call(hm.expand_message_xmd, msg, b"QUUX-V01-CS02-with-expander", rng.choice([32, 96, 2 * ds + 1]), H)
             if ml <= 255 * ds:
                 call(hm.expand_message_xmd, b"abc", b"dst", ml, H)
+    # soak: distinct (message, tag) pairs through expand_message_xmd and hash_to_field, first ones re-probed
+    if rec.shard == 0 or not quick:
+        from .common import soak_size, soak_then_reprobe
+        first = [(rng.randbytes(20), rng.randbytes(10)) for _ in range(3)]
+
+        def distinct_msgs():
+            j = 0
+            while True:
+                j += 1
+                mm = b"soak-%d" % j
+                yield (lambda mm=mm: (call(hm.expand_message_xmd, mm, b"dst", 48, HASHES["sha256"]), call(h2c.hash_to_field_FQ2, mm, 1, b"dst", HASHES["sha256"])))
+        soak_then_reprobe(rec, "distinct-messages", [lambda a=a, b=b: (call(hm.expand_message_xmd, a, b, 70, HASHES["sha256"]), call(h2c.hash_to_field_FQ, a, 2, b, HASHES["sha256"]), call(hm.expand_message_xmd, a, b, 70, HASHES["sha512"])) for a, b in first],
+                          distinct_msgs(), soak_size(["py_ecc.bls.hash", "py_ecc.bls.hash_to_curve"]))
+    else:
+        rec.case("soak:distinct-messages", None, nontrivial=False)
     # RFC-style fixed DSTs / printable messages too (realistic shape)
     for j in range(40 if quick else 400):
         i += 1
